@@ -337,6 +337,62 @@ fn run(op: &Value) -> Value {
             }
             match op["fields"].as_u64().unwrap() { 0 => go!(S0), 1 => go!(S1), _ => go!(S2) }
         }
+        "any_prim" => {
+            use conjure_object::Any;
+            let ty = op["ty"].as_str().unwrap();
+            let n = op["n"].as_str().unwrap();
+            macro_rules! rt {
+                ($t:ty, $v:expr) => {{
+                    let v: $t = $v;
+                    match Any::new(v) {
+                        Err(e) => json!({"same": false, "new_err": e.to_string()}),
+                        Ok(a) => {
+                            let direct = serde_json::to_string(&v).ok();
+                            let via = serde_json::to_string(&a).ok();
+                            match a.deserialize_into::<$t>() {
+                                Ok(b) => json!({"same": format!("{:?}", b) == format!("{:?}", v) && direct == via, "back": format!("{:?}", b), "json_direct": direct, "json_via_any": via}),
+                                Err(e) => json!({"same": false, "into_err": e.to_string()}),
+                            }
+                        }
+                    }
+                }};
+            }
+            match ty {
+                "i8" => rt!(i8, n.parse().unwrap()), "i16" => rt!(i16, n.parse().unwrap()), "i32" => rt!(i32, n.parse().unwrap()),
+                "i64" => rt!(i64, n.parse().unwrap()), "i128" => rt!(i128, n.parse().unwrap()),
+                "u8" => rt!(u8, n.parse().unwrap()), "u16" => rt!(u16, n.parse().unwrap()), "u32" => rt!(u32, n.parse().unwrap()),
+                "u64" => rt!(u64, n.parse().unwrap()), "u128" => rt!(u128, n.parse().unwrap()),
+                "bool" => rt!(bool, n == "1"),
+                "char" => rt!(char, char::from_u32(n.parse().unwrap()).unwrap()),
+                "f64" => {
+                    let v = f64::from_bits(n.parse().unwrap());
+                    match Any::new(v).and_then(|a| a.deserialize_into::<f64>()) {
+                        Ok(b) => json!({"same": b.to_bits() == v.to_bits() || (b.is_nan() && v.is_nan()), "back_bits": b.to_bits().to_string()}),
+                        Err(e) => json!({"same": false, "err": e.to_string()}),
+                    }
+                }
+                "f32" => {
+                    let v = f32::from_bits(n.parse::<u64>().unwrap() as u32);
+                    match Any::new(v).and_then(|a| a.deserialize_into::<f32>()) {
+                        Ok(b) => json!({"same": b.to_bits() == v.to_bits() || (b.is_nan() && v.is_nan()), "back_bits": b.to_bits().to_string()}),
+                        Err(e) => json!({"same": false, "err": e.to_string()}),
+                    }
+                }
+                _ => json!({"error": "type"}),
+            }
+        }
+        "any_json" => {
+            let doc = op["doc"].as_str().unwrap();
+            let direct: Value = match serde_json::from_str(doc) { Ok(v) => v, Err(e) => return json!({"error": e.to_string()}) };
+            match conjure_serde::json::client_from_str::<conjure_object::Any>(doc) {
+                Err(e) => json!({"same": false, "parse_err": e.to_string()}),
+                Ok(a) => {
+                    let out = conjure_serde::json::to_string(&a).unwrap();
+                    let back: Value = serde_json::from_str(&out).unwrap();
+                    json!({"same": back == direct && (doc.contains('.') || doc.contains('[') || doc.contains('{') || doc.contains('"') || out == doc.trim()), "out": out})
+                }
+            }
+        }
         _ => json!({"error": format!("unknown op {}", name)}),
     }
 }
